@@ -47,3 +47,17 @@ def _v5(repo, mod):
 def _v6(repo, mod):
     fn = repo.func(DES, "_resolve_type_ref")
     return insert_before(mod, fn.body[-1], "_unused = node")
+
+
+@variant("C24", "normalizer-rewrites-keywords", DES, "C24.name-positions", "the SUT-reference normalizer without its Arg hooks (the repaired defect)")
+def _v30(repo, mod):
+    c = repo.cls(DES, "_SutReferenceNormalizer")
+    fns = [f for f in c.body if isinstance(f, ast.FunctionDef) and f.name in ("visit_Arg", "leave_Arg")]
+    return replace_nodes(mod, [(f, "def _unused_%s(self):\n        return None" % f.name) for f in fns])
+
+
+@variant("C24", "renamer-renames-attributes", DES, "C24.name-positions", "_LocalRenamer without the attribute exemption (the repaired defect)")
+def _v31(repo, mod):
+    c = repo.cls(DES, "_LocalRenamer")
+    f = next(f for f in c.body if isinstance(f, ast.FunctionDef) and f.name == "leave_Attribute")
+    return replace_node(mod, f, "def _unused_attribute(self):\n        return None")
